@@ -39,6 +39,15 @@ type EPx struct {
 
 type Deployment struct {
 	EPs []EPx `json:"eps"`
+	// Shadowed: further configuration entries that name the URL of EPs[Of] again, with another name and type, and
+	// come FIRST in the configuration: the repository keeps one endpoint per URL and the later entry (EPs[Of]) wins.
+	Shadowed []Shadow `json:"shadowed,omitempty"`
+}
+
+type Shadow struct {
+	Name string `json:"name"`
+	Type string `json:"type"`
+	Of   int    `json:"of"`
 }
 
 type routes struct {
@@ -163,6 +172,13 @@ func runDeployment1(d *Deployment, rt routes, prefixes []string, c *vlib.Cases, 
 		backends = append(backends, b)
 		eps = append(eps, stack.EP{Name: e.Name, Type: e.Type, Priority: e.Prio, Backend: b})
 	}
+	var first []stack.EP
+	for _, sh := range d.Shadowed {
+		if sh.Of < len(backends) {
+			first = append(first, stack.EP{Name: sh.Name, Type: sh.Type, Priority: d.EPs[sh.Of].Prio, Backend: backends[sh.Of]})
+		}
+	}
+	eps = append(first, eps...)
 	defer func() {
 		for _, b := range backends {
 			b.Close()
@@ -254,7 +270,7 @@ func runDeployment1(d *Deployment, rt routes, prefixes []string, c *vlib.Cases, 
 					o.Body = o.Body[:100]
 				}
 				c.Count("proxy." + p)
-				c.Emit(map[string]any{"kind": "proxy", "prefix": p, "eps": d.EPs, "path": sub, "model": m, "impl": o})
+				c.Emit(map[string]any{"kind": "proxy", "prefix": p, "eps": d.EPs, "shadowed": d.Shadowed, "path": sub, "model": m, "impl": o})
 			}
 		}
 		for _, sub := range rt.listing[p] {
@@ -313,12 +329,13 @@ func main() {
 	if rp := vlib.ReplayPath(); rp != "" {
 		var rep struct {
 			FailingCase struct {
-				EPs []EPx `json:"eps"`
+				EPs      []EPx    `json:"eps"`
+				Shadowed []Shadow `json:"shadowed"`
 			} `json:"failing_case"`
 		}
 		b, _ := os.ReadFile(rp)
 		json.Unmarshal(b, &rep)
-		deps = append(deps, &Deployment{EPs: rep.FailingCase.EPs})
+		deps = append(deps, &Deployment{EPs: rep.FailingCase.EPs, Shadowed: rep.FailingCase.Shadowed})
 	} else {
 		// the design-time witness first: only an ollama endpoint, request under /olla/vllm/
 		deps = append(deps, mk([]string{"ollama"}, -1))
@@ -348,6 +365,17 @@ func main() {
 					deps = append(deps, mk(ts, r.Intn(2)))
 				}
 			}
+		}
+		// one machine listed twice under different types (an operator who wants it reachable as ollama and as
+		// openai-compatible): it is still not a vllm / sglang / ... endpoint
+		for _, pr := range [][3]string{{"ollama", "openai-compatible", "vllm"}, {"openai-compatible", "ollama", "vllm"}, {"lm-studio", "vllm", "ollama"}, {"ollama", "lm-studio", "sglang"}} {
+			d := mk([]string{pr[1], pr[2]}, 1)
+			d.Shadowed = []Shadow{{Name: "E0-as-" + pr[0], Type: pr[0], Of: 0}}
+			deps = append(deps, d)
+			d2 := mk([]string{pr[2], pr[1]}, -1) // the third provider healthy, with lower priority than the shared machine
+			d2.EPs[0].Prio, d2.EPs[1].Prio = 100, 300
+			d2.Shadowed = []Shadow{{Name: "E1-as-" + pr[0], Type: pr[0], Of: 1}}
+			deps = append(deps, d2)
 		}
 		// everything down
 		deps = append(deps, mk([]string{"vllm"}, 0))
